@@ -213,8 +213,15 @@ Lemma type_name_eq : forall f,
                     | [] => match s_alignment P spec with a0 :: _ => coordA P a0 | [] => ret P None end
                     end
           end) (fun co =>
-  fix_decl_name_type P WF (mkN P C_Typename [VStr []; vstrs P (s_qual P spec); VNone; opt_or_empty_typedecl P decl] co) (s_type P spec)))).
+  bind P (fix_decl_name_type P WF (mkN P C_Typename [VStr []; vstrs P (s_qual P spec); VNone; opt_or_empty_typedecl P decl] co) (s_type P spec))
+         (fun fixed => fix_atomic_specifiers P WF fixed)))).
 Proof. reflexivity. Qed.
+
+(* fix_atomic_specifiers finds no _Atomic specifier in such a type name and leaves it alone *)
+Lemma WF_S6 : exists n, WF = S (S (S (S (S (S n))))).
+Proof. eexists. reflexivity. Qed.
+Lemma fix_atomic_tn : forall names c0 co (s: pstate), fix_atomic_specifiers P WF (tn_res names c0 co) s = Ok (tn_res names c0 co, s).
+Proof. intros names c0 co s. destruct WF_S6 as [n E]. rewrite E. reflexivity. Qed.
 
 Lemma sql_eq : forall f,
   p_specifier_qualifier_list P (S f) =
@@ -272,7 +279,8 @@ Proof.
   - intros f Hf. destruct f as [|[|f]]; try lia. rewrite type_name_eq. unfold bind at 1. rewrite sql_eq. unfold bind at 1. rewrite (H1 f) by lia.
     rewrite Hsp, Hsaw. cbn [negb andb]. unfold ret at 1. unfold bind at 1. rewrite H2. cbn [s_type s_qual].
     unfold bind at 1. change (coordA P (mkIdType P [v0] (Some c0)) s2) with (@Ok P (option (coord P) * pstate) (Some c0, s2)).
-    cbn [opt_or_empty_typedecl]. apply (fix_tn (Some c0) (mkIdType P [v0] (Some c0)) ns' v0 (map snd kvs') c0 s2 eq_refl Hns').
+    cbn [opt_or_empty_typedecl]. unfold bind at 1. change (mkN P C_Typename [VStr []; vstrs P []; VNone; empty_TypeDecl P] (Some c0)) with (tn0 (Some c0)).
+    rewrite (fix_tn (Some c0) (mkIdType P [v0] (Some c0)) ns' v0 (map snd kvs') c0 s2 eq_refl Hns'). apply fix_atomic_tn.
   - unfold tn_res, tn_emb. cbn [strip map]. rewrite strip_strs. reflexivity.
 Qed.
 
